@@ -181,7 +181,20 @@ def ep_shape_name(env, s):
 def ep_hyperlink(env, s):
     r = env.slide.shapes.add_textbox(0, 0, 9, 9).text_frame.paragraphs[0].add_run(); r.text = "x"
     r.hyperlink.address = s
-    return r.hyperlink.address
+    got = r.hyperlink.address
+    if got != s or len(s) % 3:
+        return got
+    # a third of the strings: the address again after save + re-open (the relationship target is READ there, not only written)
+    import io as _io
+
+    from pptx import Presentation
+    r.text = "hl-probe"
+    b = _io.BytesIO(); env.prs.save(b)
+    prs2 = Presentation(_io.BytesIO(b.getvalue()))
+    idx = [x.slide_id for x in env.prs.slides].index(env.slide.slide_id)
+    runs = [q for sh in prs2.slides[idx].shapes if sh.has_text_frame for q in sh.text_frame.paragraphs[0].runs if q.text == "hl-probe"]
+    r.text = "x"
+    return runs[-1].hyperlink.address
 
 
 def ep_click_action(env, s):
@@ -430,7 +443,8 @@ ENTRY_POINTS.append(("shape name, then grouped", lambda s: True, ep_shape_name_t
 ENTRY_POINTS.append(("date categories number_format", lambda s: s != "", ep_date_cat_number_format))
 
 FRAGS = ["&", "<", ">", '"', "'", "&amp;", "&#10;", "&lt;x", "]]>", "<![CDATA[", "</a:t>", "<a:br/>", "\t", "\n", "\r", "\r\n", " ", "a", "Z",
-         "é", "\U0001F600", "%s", "%d", "{nf}", "{0}", "--", "<!--", "?>", "=\"", "'/>"]
+         "é", "\U0001F600", "%s", "%d", "{nf}", "{0}", "--", "<!--", "?>", "=\"", "'/>",
+         "%20", "%26", "%3C", "%41", "&#65;", "&quot;", "&apos;", "&gt;"]
 
 
 def gen_str(rng):
